@@ -332,6 +332,60 @@ func c15Run(c *engine.Ctx) {
 	}
 	c.Sample(map[string]any{"query": c15Queries[12], "stream": streams[len(streams)/2], "options": "all 512 subsets of -r -j --raw-output0 -c --tab --indent 1 -e -n -s"})
 
+	// every indentation count, alone and together with --tab and -c (the product above only has --indent 1)
+	c.Sub("indent-values")
+	if c.MineIdx(0) {
+		docs := []string{`{"a":[1,{"b":null}],"c":"x"}`, `[[],{}]`, `[1,[2,[3,[4]]]]`, `"s"`, `{"k":{"k":{"k":[]}}}`}
+		for n := -1; n <= 10; n++ {
+			for _, tab := range []bool{false, true} {
+				for _, compact := range []bool{false, true} {
+					for _, order := range []int{0, 1} {
+						args := []string{"--indent", fmt.Sprint(n)}
+						if tab {
+							if order == 0 {
+								args = append(args, "--tab")
+							} else {
+								args = append([]string{"--tab"}, args...)
+							}
+						}
+						if compact {
+							args = append(args, "-c")
+						}
+						for _, d := range docs {
+							c.Eval()
+							r := RunCLIString(append(append([]string{}, args...), "."), d)
+							key := fmt.Sprintf("%v on %s", args, d)
+							if n < 0 || n > 9 {
+								if r.Status == 0 || r.Stdout != "" {
+									c.Violation(key, "command-model", map[string]any{"why": fmt.Sprintf("an indentation count outside 0..9 is accepted: status %d stdout %q", r.Status, head(r.Stdout, 100))})
+								}
+								c.Outcome("indent count refused")
+								continue
+							}
+							var buf bytes.Buffer
+							switch {
+							case compact:
+								buf.WriteString(d)
+							case tab:
+								json.Indent(&buf, []byte(d), "", "\t")
+							default:
+								json.Indent(&buf, []byte(d), "", strings.Repeat(" ", n))
+							}
+							want := buf.String() + "\n"
+							// json.Indent writes "[]" and "{}" for empty containers, like the command
+							c.DistinctN(1)
+							c.Outcome("indent count accepted")
+							if r.Status != 0 || r.Stdout != want {
+								c.Violation(key, "command-model", map[string]any{"why": fmt.Sprintf("status %d stdout %q, want %q", r.Status, r.Stdout, want)})
+							}
+						}
+					}
+				}
+			}
+		}
+	}
+	c.Sample(map[string]any{"options": "--indent n for n = -1..10, with and without --tab (in both orders) and -c", "oracle": "--tab: one tab per level whatever n; else n spaces per level; -c: one line; n outside 0..9 refused"})
+
 	c.Sub("files-product")
 	c15FilesProduct(c)
 	c.Sample(map[string]any{"files": []string{"1 x", "[2]", ""}, "modes": "main loop, -n [inputs], -s"})
@@ -471,7 +525,7 @@ func c15FilesProduct(c *engine.Ctx) {
 
 func c15Replay(v *engine.Violation) (bool, string) {
 	d := v.Detail
-	if v.Check == "files" || v.Check == "files-product" {
+	if v.Check == "files" || v.Check == "files-product" || v.Check == "indent-values" {
 		return true, fmt.Sprint(d["why"])
 	}
 	WorkDir()
@@ -485,7 +539,7 @@ func init() {
 	engine.Register(&engine.Check{
 		ID:    "C15",
 		Level: "exploration",
-		Rule: "the full product of 52 queries (values of each type, several outputs, empty, errors at first/middle/last position, error with string/null/object payloads, halt, halt_error with and without codes 0/1/5/256/257/-1, NUL and newline strings, falsy last outputs, input-consuming queries, parse and compile errors) x input streams of 0..3 documents (thorough 0..4; five-document streams of one shape) from 6 document kinds with an optional malformed tail x all 512 subsets of {-r, -j, --raw-output0, -c, --tab, --indent 1, -e, -n, -s}, run in-process (hook VerifRun) and compared with a reference command model: the LIBRARY's outputs for each input rendered with Marshal + json.Indent in the selected unit, raw strings, the selected terminator, --raw-output0 rejecting NUL, halt semantics, stderr non-empty iff a diagnostic is due, exit status per the documented table (last error wins, modulo 256). A deterministic slice is re-run through the real binary; multi-file scenarios cover input errors in non-last files.",
+		Rule: "the full product of 52 queries (values of each type, several outputs, empty, errors at first/middle/last position, error with string/null/object payloads, halt, halt_error with and without codes 0/1/5/256/257/-1, NUL and newline strings, falsy last outputs, input-consuming queries, parse and compile errors) x input streams of 0..3 documents (thorough 0..4; five-document streams of one shape) from 6 document kinds with an optional malformed tail x all 512 subsets of {-r, -j, --raw-output0, -c, --tab, --indent 1, -e, -n, -s}, run in-process (hook VerifRun) and compared with a reference command model: the LIBRARY's outputs for each input rendered with Marshal + json.Indent in the selected unit, raw strings, the selected terminator, --raw-output0 rejecting NUL, halt semantics, stderr non-empty iff a diagnostic is due, exit status per the documented table (last error wins, modulo 256). Every indentation count -1..10 alone and with --tab (both orders) and -c. A deterministic slice is re-run through the real binary; multi-file scenarios cover input errors in non-last files.",
 		Assume:         []string{"C12 establishes separately that the command's encoder equals Marshal modulo white space; here the layout produced by json.Indent is taken as the reference layout"},
 		Run:            c15Run,
 		Replay:         c15Replay,
